@@ -453,11 +453,11 @@ def _machine(res, holder):
                 if msg:
                     self._fail(msg)
 
-        @rule(v=st.sampled_from(VIEWS), kind=st.sampled_from(["insert", "setitem", "append"]), i=idx,
-              s=st.one_of(specs, structural))  # fmt: skip
+        @rule(v=st.sampled_from(VIEWS), kind=st.sampled_from(["insert", "setitem", "append", "replace_equal", "replace_equal"]),
+              i=idx, s=st.one_of(specs, structural))  # fmt: skip
         def edit_between_reads(self, v, kind, i, s):
             # read a view (so it is cached), make one edit, read the same view again
-            step = (kind, s) if kind == "append" else (kind, i, s)
+            step = (kind, s) if kind == "append" else (kind, i) if kind == "replace_equal" else (kind, i, s)
             self.history.append(("edit_between_reads", v, step))
             self.nontrivial = True
             self.reads[v] = self.edits + 1
